@@ -7,6 +7,7 @@ pub fn dispatch(req: &Value) -> Value {
         "absolute" => absolute(req),
         "import_path" => import_path(req),
         "export_history" => export_history(req),
+        "binding_keys" => binding_keys(),
         "ts_field_name" => ts_field_name(req),
         "parse_docs" => parse_docs(req),
         "conformance" => super::conformance::run(req["seed"].as_u64().unwrap_or(0), req["n"].as_u64().unwrap_or(2000) as usize),
@@ -189,6 +190,14 @@ pub fn export_history(req: &Value) -> Value {
             results.push(json!(kind));
             continue;
         }
+        if kind == "write" {
+            // a file left behind by an earlier run
+            let f = root.join(st[1].as_str().unwrap());
+            if let Some(d) = f.parent() { let _ = std::fs::create_dir_all(d); }
+            let _ = std::fs::write(&f, st[2].as_str().unwrap());
+            results.push(json!(kind));
+            continue;
+        }
         let ty = st[1].as_str().unwrap().to_string();
         let dir = st.get(2).and_then(|d| d.as_str()).map(|s| s.to_string());
         let r = catch(move || export_step(&kind, &ty, dir.as_deref()));
@@ -246,4 +255,94 @@ fn parse_docs(req: &Value) -> Value {
             json!({"actual": a, "agree": ok, "expected": "empty, or exactly one block comment: starts with /**, the first */ is the one that ends it"})
         }
     }
+}
+
+
+// ---------------------------------------------------------------------------------------------------------
+// C09 call sites, on really derived types: the property names of the binding are the keys serde_json writes
+mod keys {
+    use serde::Serialize;
+    use ts_rs::TS;
+    #[derive(TS, Serialize, Default)]
+    #[serde(rename_all = "camelCase")]
+    pub struct K1 { pub r#type: i32, pub r#final_state: i32, pub plain_name: i32 }
+    #[derive(TS, Serialize, Default)]
+    #[serde(rename_all = "camelCase")]
+    pub struct K2 { #[ts(type = "string")] pub r#type: i32, #[ts(type = "number")] pub r#final_state: i32, #[ts(type = "number")] pub plain_name: i32 }
+    #[derive(TS, Serialize, Default)]
+    #[serde(rename_all = "SCREAMING-KEBAB-CASE")]
+    pub struct K3 { #[ts(type = "string")] pub r#match: i32, pub other_field: i32, #[serde(rename = "explicit")] pub renamed_one: i32 }
+    #[derive(TS, Serialize, Default)]
+    pub struct K4 { #[ts(type = "string")] pub r#type: i32, pub r#fn: i32, #[ts(rename = "tsWins")] #[serde(rename = "tsWins")] pub x_y: i32 }
+    #[derive(TS, Serialize)]
+    #[serde(rename_all = "snake_case", rename_all_fields = "PascalCase")]
+    pub enum K5 { FirstVariant { #[ts(type = "string")] r#type: i32, inner_field: i32 }, SecondOne { r#match: i32 } }
+    #[derive(TS, Serialize, Default)]
+    #[serde(rename_all = "UPPERCASE")]
+    pub struct K6 { #[ts(type = "string")] pub aé: i32, pub r#loop: i32 }
+}
+
+/// top-level property names of the first `{ .. }` object type in `ts` (unquoted)
+fn ts_object_keys(ts: &str) -> Vec<String> {
+    let mut keys = vec![];
+    let b: Vec<char> = ts.chars().collect();
+    let Some(start) = b.iter().position(|c| *c == '{') else { return keys };
+    let (mut depth, mut i, mut at_key) = (0i32, start, false);
+    while i < b.len() {
+        let c = b[i];
+        match c {
+            '{' | '(' | '[' | '<' => { depth += 1; if c == '{' && depth == 1 { at_key = true; } i += 1; }
+            '}' | ')' | ']' | '>' => { depth -= 1; if depth == 0 { break; } i += 1; }
+            ',' if depth == 1 => { at_key = true; i += 1; }
+            '"' => {
+                let mut j = i + 1; let mut s = String::new();
+                while j < b.len() && b[j] != '"' { if b[j] == '\\' { j += 1; } if j < b.len() { s.push(b[j]); } j += 1; }
+                if at_key && depth == 1 { keys.push(s); at_key = false; }
+                i = j + 1;
+            }
+            c if c.is_whitespace() => { i += 1; }
+            _ => {
+                if at_key && depth == 1 {
+                    let mut j = i; let mut s = String::new();
+                    while j < b.len() && b[j] != ':' && b[j] != '?' && !b[j].is_whitespace() { s.push(b[j]); j += 1; }
+                    keys.push(s); at_key = false; i = j;
+                } else { i += 1; }
+            }
+        }
+    }
+    keys
+}
+
+fn binding_keys() -> Value {
+    use ts_rs::TS;
+    fn one<T: TS + serde::Serialize>(name: &str, v: &T, pick: fn(&Value) -> Value, inline: String) -> Value {
+        let js = pick(&serde_json::to_value(v).unwrap());
+        let mut want: Vec<String> = js.as_object().map(|o| o.keys().cloned().collect()).unwrap_or_default();
+        let mut got = ts_object_keys(&inline);
+        want.sort(); got.sort();
+        json!({"type": name, "binding": inline, "binding_keys": got, "serde_json_keys": want, "agree": got == want})
+    }
+    let id: fn(&Value) -> Value = |v| v.clone();
+    let mut out = vec![
+        one("K1", &keys::K1::default(), id, keys::K1::inline()),
+        one("K2", &keys::K2::default(), id, keys::K2::inline()),
+        one("K3", &keys::K3::default(), id, keys::K3::inline()),
+        one("K4", &keys::K4::default(), id, keys::K4::inline()),
+        one("K6", &keys::K6::default(), id, keys::K6::inline()),
+    ];
+    // externally tagged enum: { "variant_name": { fields } }: compare the outer key and the inner keys of each variant
+    for (v, k) in [(keys::K5::FirstVariant { r#type: 0, inner_field: 0 }, 0usize), (keys::K5::SecondOne { r#match: 0 }, 1usize)] {
+        let js = serde_json::to_value(&v).unwrap();
+        let (tag, inner) = js.as_object().unwrap().iter().next().map(|(a, b)| (a.clone(), b.clone())).unwrap();
+        let inline = keys::K5::inline();
+        let arm = inline.split(" | ").nth(k).unwrap_or("").to_string();
+        let outer = ts_object_keys(&arm);
+        let inner_ts = arm.find('{').and_then(|p| arm[p + 1..].find('{').map(|q| arm[p + 1 + q..].to_string())).unwrap_or_default();
+        let mut got = ts_object_keys(&inner_ts); got.sort();
+        let mut want: Vec<String> = inner.as_object().map(|o| o.keys().cloned().collect()).unwrap_or_default(); want.sort();
+        out.push(json!({"type": format!("K5 variant {k}"), "binding": arm, "binding_keys": got, "serde_json_keys": want, "outer_key": outer, "serde_tag": tag,
+                        "agree": got == want && outer == vec![tag.clone()]}));
+    }
+    let agree = out.iter().all(|o| o["agree"] == json!(true));
+    json!({"cases": out, "agree": agree})
 }
